@@ -6,6 +6,7 @@ harness entry, decisions replayed without solver calls).  See DESIGN.md 2.2.
 """
 from __future__ import annotations
 
+import contextlib
 import sys
 import time
 import zlib
@@ -27,6 +28,37 @@ class BudgetExceeded(BaseException):
 
 class HarnessError(Exception):
     """The machinery, not the library, is wrong (exit 2)."""
+
+
+class PathTimeout(BaseException):
+    """A single path (or a concrete replay) did not come back within its wall-clock limit."""
+
+
+PATH_LIMIT = int(os.environ.get("VERIF_PATH_TIMEOUT", "150"))
+
+
+@contextlib.contextmanager
+def time_limit(seconds):
+    """Raise PathTimeout inside the block after `seconds` (SIGALRM; nests inside an outer alarm, no-op outside the main thread)."""
+    import signal
+
+    def handler(signum, frame):
+        raise PathTimeout()
+
+    t0 = time.time()
+    try:
+        old = signal.signal(signal.SIGALRM, handler)
+    except ValueError:
+        yield
+        return
+    remaining = signal.alarm(seconds)
+    try:
+        yield
+    finally:
+        signal.alarm(0)
+        signal.signal(signal.SIGALRM, old)
+        if remaining:
+            signal.alarm(max(1, int(remaining - (time.time() - t0))))
 
 
 class Ctx:
@@ -548,12 +580,17 @@ def explore(fn, max_paths=4000, timeout_ms=30000, max_cex=3, wall_s=600, coverag
             if profile and res.paths == 0:
                 with Profile() as p:
                     try:
-                        obs = fn(ctx)
+                        with time_limit(PATH_LIMIT):
+                            obs = fn(ctx)
                     finally:
                         pass
                 res.functions |= p.seen
             else:
-                obs = fn(ctx)
+                with time_limit(PATH_LIMIT):
+                    obs = fn(ctx)
+        except PathTimeout:
+            # a library call on this path did not return (an iterable that never ends, say): observed behaviour, replayed like any other
+            obs = [(f"the path comes back within {PATH_LIMIT} s", False, {"timeout_s": PATH_LIMIT})]
         except PathAbort:
             obs = None
         except BudgetExceeded as e:
